@@ -34,6 +34,14 @@ CHECKS = {
    note='Trusted: R-SUB. Quick: 7 tables, 400 leaves per query (capped queries are reported, exhaustive=false); thorough: all '
         'tables, 30 000 leaves.',
    technique='exhaustive choice-tree DFS of the real searches per (class table, query) against a reference relation'),
+ 'C10': dict(engine='SSE', category='exploration', design_ref='5 C10',
+   text='unify_types (deterministic) is called on every (target, pattern, mode) triple of the SSE universes: targets = all '
+        'well-formed ground types to depth 1 with all projections; patterns = plain, bounded, repeated, projected and nested '
+        'variable patterns for every generic class, and the bare variable. A non-empty result is substituted back by a '
+        'reference substitution and compared with the target / its supertypes; bounds by R-SUB.',
+   note='Trusted: reference substitution/matcher (60 lines), R-SUB for bounds. Supertype mode compares with supertypes '
+        'obtained by syntactic substitution (the capture issue is the recorded C06 finding).',
+   technique='small-scope exhaustive enumeration of (target, pattern) pairs with a substitute-back oracle'),
  'C11': dict(engine='CTE+HBFS', category='model_checking', design_ref='5 C11',
    text='For every pipeline execution within the deviation bound, an explicit-state BFS over translation histories on '
         'long-lived translator objects (3 programs x 4 languages, depth 3, state merging on translator attributes; '
@@ -96,7 +104,7 @@ ENGINES = [
   'kind_free_text': 'stateless deviation-bounded explorer of the choice tree of the real pipeline (ChoiceSource replaces src.utils.random.r)'},
  {'name': 'exhaustive-graphs', 'path': 'mc/props/c19.py', 'serves_properties': ['C19'],
   'kind_free_text': 'enumeration of all digraphs up to 4 (5) vertices'},
- {'name': 'SSE', 'path': 'mc/universe.py', 'serves_properties': ['C06', 'C09'],
+ {'name': 'SSE', 'path': 'mc/universe.py', 'serves_properties': ['C06', 'C09', 'C10'],
   'kind_free_text': 'small-scope enumeration of class tables (skeleton grammar) and types built through the real constructors'},
  {'name': 'inner-DFS', 'path': 'mc/inner.py', 'serves_properties': ['C08', 'C09'],
   'kind_free_text': 'complete enumeration of the random-choice tree of one helper call'},
